@@ -264,10 +264,11 @@ func c16Job(raw json.RawMessage) (any, error) {
 			if e.Site == "interceptor" {
 				c16InterceptorPanic = val
 			}
+			lockBase := heldLocks() // process-wide counter: compare with its value before the request
 			o := hv.Serve(srv, q)
 			c16InterceptorPanic = nil
 			out.Evals++
-			if n := heldLocks(); n != 0 {
+			if n := heldLocks() - lockBase; n != 0 {
 				rep("lock-leaked", e.Name+": "+q.String(), fmt.Sprintf("%d router lock(s) still held after ServeHTTP returned", n), "every lock released (a later Handle/Remove would block forever)")
 				return
 			}
